@@ -9,6 +9,7 @@ import glom
 from glom import (T, M, Auto, Fill, Pipe, Spec, Val, Ref, Iter, Invoke, Coalesce, Match, Switch,
                   Check, And, Or, Not, Flatten, Assign, Delete, GlomError)
 from glom.grouping import Group
+from glom.streaming import First
 
 # names usable in except clauses / skip_exc, canonical order (see GlomErrors.tla, Cls.anc)
 POOL = ['AttributeError', 'KeyError', 'IndexError', 'LookupError', 'MatchError', 'PathAssignError',
@@ -97,6 +98,30 @@ class BUser(BaseException):
     pass
 
 
+class UEqRaise(Exception):        # naive value-based __eq__: reads an attribute of the other operand
+    def __init__(self, code):
+        super().__init__(code)
+        self.code = code
+
+    def __eq__(self, other):
+        return self.code == other.code
+
+
+class UEqAll(Exception):          # equal to everything
+    def __eq__(self, other):
+        return True
+
+    __hash__ = Exception.__hash__
+
+
+class Node:
+    def __init__(self, raiser):
+        self._raiser = raiser
+
+    def load(self):
+        self._raiser(self)
+
+
 class UFalsy(Exception):          # instances are falsy
     def __len__(self):
         return 0
@@ -149,6 +174,7 @@ CATALOGUE = {
     'GSub': lambda: GSub('x'), 'GKeep': lambda: GKeep(1, 2), 'GInit2': lambda: GInit2(1, 2),
     'GDbl': lambda: GDbl(3), 'GVal': lambda: GVal('v'), 'GCopy': lambda: GCopy(1, 2),
     'BKbd': lambda: KeyboardInterrupt(), 'BUser': lambda: BUser(1),
+    'UEqRaise': lambda: UEqRaise(7), 'UEqAll': lambda: UEqAll('q'),
     'StopIter': lambda: StopIteration(3), 'UFalsy': lambda: UFalsy('f'), 'GFalsy': lambda: GFalsy('g'),
     'SubTypeMatch': lambda: SubTypeMatch(int, str), 'SubMatch': lambda: SubMatch('fmt {0}', 1),
     'SubCoalesce': lambda: SubCoalesce(Coalesce('a', 'b'), [], ['p']),
@@ -163,6 +189,10 @@ def args_equal(a, b):
         return bool(a == b)
     except Exception:
         return len(a) == len(b) and all(p is q for p, q in zip(a, b))
+
+
+class _Foreign:
+    __slots__ = ()
 
 
 def measure(e, cid, kind):
@@ -183,8 +213,12 @@ def measure(e, cid, kind):
         truthy = bool(e)
     except Exception:
         truthy = True
+    try:
+        eq = 'always' if (e == _Foreign()) is True else 'std'
+    except Exception:
+        eq = 'raises'
     return {'id': cid, 'anc': anc, 'exc': isinstance(e, Exception), 'glom': isinstance(e, GlomError),
-            'rec': rec, 'cp': cp, 'kind': kind, 'truthy': truthy}
+            'rec': rec, 'cp': cp, 'kind': kind, 'truthy': truthy, 'eq': eq}
 
 
 # ---- sentinels and probes -------------------------------------------------------------------
@@ -341,6 +375,26 @@ class World:
                     spec, target = T['data'][Invoke(raiser)], {'data': {'k': 1}}
                 else:
                     spec, target = T.meth(Spec(raiser)), MethTarget()
+                top = self.n - 1
+                spec = self.P(top, spec, self.log)
+            elif inner == 'firstkey':
+                v = ctxs[-1]['v']
+                if v == 'first':
+                    spec, target = First(raiser), [1, 2]
+                elif v == 'iterfirst':
+                    spec, target = Iter().first(raiser), [1, 2]
+                else:
+                    spec, target = ('items', First(raiser)), {'items': [1, 2]}
+                top = self.n - 1
+                spec = self.P(top, spec, self.log)
+            elif inner == 'afterstar':
+                v = ctxs[-1]['v']
+                if v == 'call':
+                    spec, target = T.__star__().load(), {'a': Node(raiser)}
+                elif v == 'ss_call':
+                    spec, target = T.__starstar__().load(), {'a': Node(raiser)}
+                else:
+                    spec, target = T.__star__()[Spec(raiser)], {'a': {'k': 1}}
                 top = self.n - 1
                 spec = self.P(top, spec, self.log)
             elif inner == 'geniter':
@@ -539,7 +593,7 @@ class World:
         return {'st': 'raised', 'id': ident_, 'args': 'same' if same_args else 'diff', 'w': w,
                 'cls': {'id': cid, 'anc': anc, 'exc': isinstance(e, Exception),
                         'glom': isinstance(e, GlomError), 'rec': 'same', 'cp': 'ok',
-                        'kind': 'glomdoc' if type(e) in GLOMDOC_BY_TYPE else 'user', 'truthy': True}}
+                        'kind': 'glomdoc' if type(e) in GLOMDOC_BY_TYPE else 'user', 'truthy': True, 'eq': 'std'}}
 
 
 def proj_model(x):
